@@ -162,8 +162,8 @@ def _to_hm_post(c):
 
 
 contract('ace_time::TimeOffset::toHourMinute(signed char&, signed char&) const', props=['C17'],
-         requires=lambda c: [disjoint(c.ex, c.args[1], 1, c.args[2], 1), disjoint(c.ex, c.this, 2, c.args[1], 1),
-                             disjoint(c.ex, c.this, 2, c.args[2], 1)],
+         lang_requires=lambda c: [disjoint(c.ex, c.args[1], 1, c.args[2], 1), disjoint(c.ex, c.this, 2, c.args[1], 1),
+                                  disjoint(c.ex, c.this, 2, c.args[2], 1)],
          ensures=_to_hm_post, assigns=lambda c: [(c.args[1], 1), (c.args[2], 1)])
 
 INC15 = 'ace_time::time_offset_mutation::increment15Minutes(ace_time::TimeOffset&)'
